@@ -6,13 +6,13 @@ import os
 
 ROOT = os.path.dirname(os.path.dirname(os.path.abspath(__file__)))
 SPECS = {
-    "C01": "JwsVerify", "C02": "CredentialValidation (+ DomainLinkage, Lifecycle)", "C03": "PresentationValidation",
+    "C01": "JwsVerify", "C02": "CredentialValidation (+ DomainLinkage, LinkedServices, CredentialStructure, Lifecycle)", "C03": "PresentationValidation",
     "C04": "Document, MCDocument, DocumentTrace (+ LoadSpec, Document_prefix.cfg)", "C05": "Mutate + every other spec's tables as generators",
     "C06": "RevocationBitmap(+Trace)", "C07": "JwtClaims", "C08": "JwsProduce",
     "C09": "StorageTxn (+_prefix.cfg), MethodDigest, Lifecycle", "C10": "DidSyntax, MCDidSyntax, DidSyntaxTrace",
     "C11": "JoseHeaderPolicy", "C12": "StatusList(+Trace)", "C13": "Timestamp, MCTimestamp, TimestampTrace",
-    "C14": "StateMetadata", "C15": "KeyStore(+Trace), KeyIdStore(+Trace), MCKeyIdStore (+_nonatomic.cfg)",
-    "C16": "SdJwtValidation", "C17": "IotaDid, MCIotaDid", "C18": "Jwk", "C19": "OrderedSet, OneOrSet, OneOrMany (+Trace each)",
+    "C14": "StateMetadata", "C15": "KeyStore(+Trace), KeyIdStore(+Trace), MCKeyIdStore (+_nonatomic.cfg); both also over StrongholdStorage",
+    "C16": "SdJwtValidation (+ JptFlow)", "C17": "IotaDid, MCIotaDid", "C18": "Jwk", "C19": "OrderedSet, OneOrSet, OneOrMany (+Trace each)",
     "C20": "Resolver, MCResolver",
 }
 
